@@ -249,11 +249,14 @@ def jaccardOfCounts (num_non_zero num_equal : α) : α :=
   if num_non_zero == 0 then 0 else (num_non_zero - num_equal) / num_non_zero
 def jaccard (x y : List α) : α := jaccardOfCounts (ofNat (numNonZero x y)) (ofNat (numTrueTrue x y))
 
-/-- `alternative_jaccard`: `-np.log2(num_equal / num_non_zero)`; there is NO saturation branch in
-the dense kernel: for disjoint supports it evaluates `-log2(0)` (`+inf` in IEEE arithmetic; the
-sparse twin returns `FLOAT32_MAX` there) -/
+/-- `alternative_jaccard`: `0.0` for two empty supports, `FLOAT32_MAX` for disjoint non-empty
+supports (`num_equal == 0.0`: the saturation branch the sparse twin always had, in the dense kernel
+since repository commit d428a58 — before, it evaluated `-log2(0) = +inf`, which no heap push
+accepts), otherwise `-np.log2(num_equal / num_non_zero)` -/
 def alternativeJaccardOfCounts (num_non_zero num_equal : α) : α :=
-  if num_non_zero == 0 then 0 else -(log2 (num_equal / num_non_zero))
+  if num_non_zero == 0 then 0
+  else if num_equal == 0 then f32max
+  else -(log2 (num_equal / num_non_zero))
 def alternativeJaccard (x y : List α) : α :=
   alternativeJaccardOfCounts (ofNat (numNonZero x y)) (ofNat (numTrueTrue x y))
 
